@@ -120,6 +120,11 @@ func GenProgram(rng *rand.Rand, id string, cfg Cfg, g GenOpts) *Program {
 		}
 		return ins
 	}
+	if (g.AfterCompact || g.Sessions || g.MoreReopen) && rng.Intn(3) == 0 {
+		// an empty first session: the database is created, closed and opened again before anything is written
+		// (whatever Close persists about the still empty first segment must fit what Open makes of it)
+		p.Ops = append(p.Ops, Op{Op: "reopen"})
+	}
 	fresh := append([]string(nil), g.Fresh...)
 	takeFresh := func() (string, bool) {
 		if len(fresh) == 0 {
@@ -434,6 +439,15 @@ func EmptyingProgram(rng *rand.Rand, id string, cfg Cfg, keys []string) *Program
 	case 1:
 		p.Ops = append(p.Ops, Op{Op: "backup", Dir: "bk-" + id}, Op{Op: "backup_open", Dir: "bk-" + id})
 	case 2:
+		p.Ops = append(p.Ops, Op{Op: "compact"}, Op{Op: "sync"})
+	}
+	if rng.Intn(2) == 0 {
+		// an idle session after compaction removed every segment, then enough overwrites to fill and roll over the
+		// segment that session left behind, so that a later compaction removes it
+		p.Ops = append(p.Ops, Op{Op: "reopen"}, Op{Op: "reopen"})
+		for i := 0; i < 3*n+6; i++ {
+			p.Ops = append(p.Ops, Op{Op: "put", K: keys[i%n], V: fmt.Sprintf("r%d_", i), VL: int(cfg.MaxSeg) / 5})
+		}
 		p.Ops = append(p.Ops, Op{Op: "compact"}, Op{Op: "sync"})
 	}
 	p.Ops = append(p.Ops, Op{Op: "reopen"}, Op{Op: "put", K: keys[0], V: "fin"}, Op{Op: "compact"}, Op{Op: "close"})
